@@ -2,7 +2,7 @@
     Statements only; proofs in Auth/AnteProofs.v and Auth/AnteTable.v. The table [Gen.C03.specs]
     is regenerated from the Go sources of every msg server on every check. *)
 From Coq Require Import List ZArith String Bool.
-From Paloma Require Import Auth.Discipline Auth.Ante Auth.AnteProofs Auth.AnteTable.
+From Paloma Require Import Auth.Discipline Auth.Ante Auth.AnteProofs Auth.AnteTable Auth.Objects Auth.ObjectsProofs Auth.Index.
 From Paloma Require Gen.C03.
 Import ListNotations.
 Open Scope Z_scope.
@@ -130,3 +130,84 @@ Theorem evm_remove_deployment_refuted :
     get (owned s') auth <> get (owned s) auth /\ ~ authorised auth g evm_remove_deployment_spec m auth.
 Proof. exact evm_remove_deployment_refuted_lemma. Qed.
 Print Assumptions evm_remove_deployment_refuted.
+
+(** ---- second round: state rewritten by NON-MESSAGE paths, and indexes keyed by what the sender chooses ---- *)
+
+(** Per-run obligation over the index-write rows extracted from every handler: a write whose key the
+    sender chooses is preceded by a guard of the reviewed kind that is keyed by (at least) the key of
+    the index that is written — an absent-guard on the same index, an owner-guard on the object, the
+    authority guard, or the entry lives under the creator. *)
+Theorem index_writes_guarded : forallb (idx_ok Gen.C03.specs known_open) Gen.C03.index_rows = true.
+Proof. exact index_writes_guarded_lemma. Qed.
+Print Assumptions index_writes_guarded.
+
+(** The duplicate-binding lookup of skyway SetERC20ToTokenDenom is keyed by the ERC20 contract, the
+    key of the index the handler writes (extracted from the Go AST). *)
+Theorem bind_guard_on_written_index : guard_on_written_index Gen.C03.code_shape = true.
+Proof. exact bind_guard_on_written_index_lemma. Qed.
+Print Assumptions bind_guard_on_written_index.
+
+(** tokenfactory InitGenesis writes the exported admin AFTER createDenomAfterValidation (which writes
+    the creator): the last write per denom is the exported authority metadata (extracted). *)
+Theorem tf_import_admin_last : import_admin_last Gen.C03.code_shape = true.
+Proof. exact tf_import_admin_last_lemma. Qed.
+Print Assumptions tf_import_admin_last.
+
+(** ExportGenesis -> InitGenesis of tokenfactory, as the code has it, is the identity on "who
+    administers which denom", for every state. *)
+Theorem genesis_roundtrip_preserves_admin : forall s d,
+  admin_of (tf_roundtrip Gen.C03.code_shape s) d = admin_of s d.
+Proof. exact table_genesis_preserves_admin. Qed.
+Print Assumptions genesis_roundtrip_preserves_admin.
+
+(** Over every history of object operations — any interleaving of denom creations, admin changes,
+    mints, ERC20 bindings by token admins and by governance, transfers, cancellations and GENESIS
+    ROUND TRIPS — in which principal q signs nothing: every denom q administers is still q's. *)
+Theorem objects_history_admin_kept : forall auth ops s q,
+  (forall op, In op ops -> signer auth op <> Some q) ->
+  forall d, admin_of s d = Some q -> admin_of (orun Gen.C03.code_shape ops s) d = Some q.
+Proof. exact table_objects_history_admin. Qed.
+Print Assumptions objects_history_admin_kept.
+
+(** ... every ERC20 binding that exists survives unchanged unless the governance authority signs: no
+    token admin's correctly self-signed message alters a binding made by governance or by another
+    admin (nor its own, once made). *)
+Theorem objects_history_binding_kept : forall auth ops s,
+  (forall op, In op ops -> signer auth op <> Some auth) ->
+  forall e d, e2d s e = Some d -> e2d (orun Gen.C03.code_shape ops s) e = Some d.
+Proof. exact table_objects_history_binding. Qed.
+Print Assumptions objects_history_binding_kept.
+
+(** ... and every pending transfer of p is still pending in p's name unless p signs (ids are handed
+    out by a counter: [wf_ids], an invariant of every history from the initial state). *)
+Theorem objects_history_pending_kept : forall auth ops s p,
+  wf_ids s ->
+  (forall op, In op ops -> signer auth op <> Some p) ->
+  forall tx e, pend s tx = Some (p, e) -> pend (orun Gen.C03.code_shape ops s) tx = Some (p, e).
+Proof. exact table_objects_history_pending. Qed.
+Print Assumptions objects_history_pending_kept.
+
+Theorem objects_ids_invariant : forall sh ops, wf_ids (orun sh ops init_env1).
+Proof. intros. apply wf_ids_run. exact wf_ids_init1. Qed.
+Print Assumptions objects_ids_invariant.
+
+(** Why the two shapes are pinned. The duplicate-binding guard reading the other index (denom ->
+    erc20): the admin of a fresh denom of its own overwrites governance's binding. *)
+Theorem bind_guard_wrong_index_refuted :
+  let sh := MkShape ["ChainReferenceId"; "Denom"]%string ["createDenomAfterValidation"; "setAuthorityMetadata"]%string in
+  exists auth s p s',
+    p <> auth /\ e2d s 1 = Some (0, 1) /\
+    ostep sh s (OBind p p 3 1 true) = (s', true) /\ signer auth (OBind p p 3 1 true) <> Some auth /\
+    e2d s' 1 = Some (p, 3).
+Proof. exact bind_guard_wrong_index_refuted_lemma. Qed.
+Print Assumptions bind_guard_wrong_index_refuted.
+
+(** InitGenesis writing the exported admin before createDenomAfterValidation: a genesis round trip
+    (no message at all) hands a denom back to its creator b although c administers it. *)
+Theorem genesis_admin_first_refuted :
+  let sh := MkShape ["ChainReferenceId"; "Erc20"]%string ["setAuthorityMetadata"; "createDenomAfterValidation"]%string in
+  exists auth ops s d b c,
+    b <> c /\ (forall op, In op ops -> signer auth op <> Some c /\ signer auth op <> Some b) /\
+    admin_of s d = Some c /\ admin_of (orun sh ops s) d = Some b.
+Proof. exact genesis_admin_first_refuted_lemma. Qed.
+Print Assumptions genesis_admin_first_refuted.
